@@ -61,7 +61,8 @@ func runC05(c *eng.Ctx, tier string) {
 		}
 		if eng.FuncPkg(f) == p.TypesPkg("db") {
 			for _, prm := range f.Params {
-				if isByteSlice(prm.Type()) && (prm.Name() == "value" || strings.Contains(strings.ToLower(prm.Name()), "val")) {
+				// the secret bytes enter package db as the []byte parameter of a DB / kv method
+				if isByteSlice(prm.Type()) && (recvIs(f, "db", "DB") || recvIs(f, "db", "kv")) {
 					addSrc(prm, "parameter "+prm.Name()+" of "+eng.FName(f))
 				}
 			}
